@@ -34,11 +34,8 @@ pub struct PropDef {
     pub canaries: &'static [&'static str],
 }
 
-#[cfg(feature = "full")]
 pub mod c01;
-#[cfg(feature = "full")]
 pub mod c02;
-#[cfg(feature = "full")]
 pub mod c03;
 pub mod c04;
 #[cfg(feature = "full")]
@@ -48,35 +45,29 @@ pub mod c06;
 pub mod c07;
 #[cfg(feature = "full")]
 pub mod c08;
-#[cfg(feature = "full")]
 pub mod c09;
-#[cfg(feature = "full")]
 pub mod c16;
 #[cfg(feature = "full")]
 pub mod c17;
 #[cfg(feature = "full")]
 pub mod c18;
-#[cfg(feature = "full")]
+#[cfg(feature = "elf_to_str")]
 pub mod c19;
 #[cfg(feature = "full")]
 pub mod c20;
-#[cfg(feature = "full")]
 pub mod util;
 #[cfg(feature = "full")]
 pub mod c10;
-#[cfg(feature = "full")]
 pub mod c11;
-#[cfg(feature = "full")]
 pub mod c12;
-#[cfg(feature = "full")]
 pub mod c13;
-#[cfg(feature = "full")]
 pub mod c14;
-#[cfg(feature = "full")]
 pub mod c15;
 
 pub fn all() -> Vec<PropDef> {
-    let mut v = vec![c04::DEF, c06::DEF];
+    let mut v = vec![c01::DEF, c02::DEF, c03::DEF, c04::DEF, c06::DEF, c09::DEF, c11::DEF, c12::DEF, c13::DEF, c14::DEF, c15::DEF, c16::DEF];
+    #[cfg(feature = "elf_to_str")]
+    v.push(c19::DEF);
     #[cfg(feature = "full")]
     {
         v.extend(full());
@@ -86,5 +77,5 @@ pub fn all() -> Vec<PropDef> {
 
 #[cfg(feature = "full")]
 fn full() -> Vec<PropDef> {
-    vec![c01::DEF, c02::DEF, c03::DEF, c05::DEF, c07::DEF, c08::DEF, c09::DEF, c10::DEF, c11::DEF, c12::DEF, c13::DEF, c14::DEF, c15::DEF, c16::DEF, c17::DEF, c18::DEF, c19::DEF, c20::DEF]
+    vec![c05::DEF, c07::DEF, c08::DEF, c10::DEF, c17::DEF, c18::DEF, c20::DEF]
 }
